@@ -180,6 +180,19 @@ PROPS = {
         "rule": "random_bool_vector for sizes -2..64, 100, 1000 x 16 sparsities (grid of [0,1], just above 0.5, out of range, NaN, inf) x 6 (thorough 40) draws, per-position flip histograms over 400*size draws for 7 sizes x 3 sparsities, random_int_vector with (min,max) incl. equal, reversed and MIN..MAX, random_float_vector with deviations {0, 1, 0.5, -1, -0.0, inf, -inf, NaN, 1e30, 1e-30}; the eight RAND instructions by NAME on generated states with varied configuration bounds; postconditions (length, range, exact count of non-default bits by the documented rounding, None for invalid parameters) checked on every output; non-trivial = a value was produced",
         "assumptions": ["termination of the rejection loop in random_bool_vector is almost sure, not sure: the theorem is deadlock-freedom (a default position always exists while a flip is needed) plus the exact count", "the per-position histogram is a statistical test (failure probability < 1e-9 per cell for the sizes used)"],
     },
+    "C14": {
+        "scenarios": lambda tier, q: [
+            {"name": "det", "args": []},
+            {"name": "cli", "args": []},
+            {"name": "srcscan", "args": []},
+        ],
+        "needs_bin": True,
+        "release_pass": True,
+        "release_compare": ["run", "stkgrid"],
+        "signature": lambda req: req.split(" ")[1],
+        "rule": "RAND-free, id-free programs on generated states: run, an unrelated run (touching the RNG and the node counter), run again, then 2/4/8/16 threads released from a barrier each running the same program on its own copy of the state; all final states must coincide and equal the model's run; 2/8/16 threads creating 20000 (thorough 100000) nodes each through Graph::add_node and GRAPH.NODE*ADD: ids pairwise distinct; the pushr binary on 60 (thorough 400) terminating programs: last printed EXEC / CODE / INT stacks against the model; source inventory of process-global mutable state and randomness sources; thorough: the run and stack-grid scenarios in a debug and an optimised build must produce identical lines; non-trivial = every case",
+        "assumptions": ["interleavings inside a step are excluded by Rust's ownership rules (each thread owns its PushState), not by the model; schedules are those the OS produces", "the only process-global mutable state is the atomic node counter with a single fetch_add site (checked by the source inventory on every run)"],
+    },
     "C01": {
         "scenarios": lambda tier, q: [
             {"name": "exec", "args": ["*"]},
